@@ -212,6 +212,41 @@ pub fn process_is_stuck(samples: usize, gap_ms: u64) -> (bool, String) {
     )
 }
 
+/// Runs a whole case of a property whose readers and writers are driven by plain calls under the
+/// watchdog: a call that never comes back (blocked or spinning) becomes a violation of that case
+/// instead of a dead shard.
+pub fn watched(ctx: &crate::case::Ctx, idx: u64, label: &str, f: fn(&crate::case::Ctx, u64) -> Vec<crate::case::CaseOut>) -> Vec<crate::case::CaseOut> {
+    use crate::case::CaseOut;
+    if is_miri() {
+        return f(ctx, idx);
+    }
+    let c2 = ctx.clone();
+    match guarded(20_000, 600_000, move || f(&c2, idx)) {
+        Guarded::Done(v) => v,
+        Guarded::Panicked(p) => {
+            let harness = p.loc.contains("harness/") || p.loc.starts_with("src/props") || p.loc.starts_with("src/bin");
+            let sig = if harness { format!("HARNESS-PANIC @{}", p.site()) } else { format!("panic @{}", p.site()) };
+            vec![CaseOut::viol("uncaught", sig, p.short_msg(), format!("case {idx}"))]
+        }
+        Guarded::Stuck(w) => vec![CaseOut::viol(format!("{label}|hang"), format!("never-returns {label}"), w, format!("case {idx} (lzv describe shows its parameters)"))],
+        Guarded::Timeout => vec![CaseOut::skip(format!("{label}|hang"), "watchdog without stuck predicate (inconclusive)", format!("case {idx}"))],
+    }
+}
+
+/// How long a scenario may burn CPU without any progress event before it is judged to be spinning.
+/// Set per build variant by the runner (instrumented and unoptimised builds get more).
+pub static SPIN_QUIET_MS: std::sync::atomic::AtomicU64 = std::sync::atomic::AtomicU64::new(30_000);
+
+/// utime + stime of this process in clock ticks (10 ms on Linux), from /proc/self/stat.
+fn process_cpu_ticks() -> u64 {
+    let s = std::fs::read_to_string("/proc/self/stat").unwrap_or_default();
+    // fields after the closing parenthesis of the command name: state is field 3, utime 14, stime 15
+    let rest = s.rsplit(')').next().unwrap_or("");
+    let f: Vec<&str> = rest.split_whitespace().collect();
+    let get = |i: usize| f.get(i).and_then(|x| x.parse::<u64>().ok()).unwrap_or(0);
+    get(11) + get(12)
+}
+
 /// Runs `f` on its own thread under a watchdog. Under Miri `f` runs inline (the interpreter
 /// reports deadlocks exactly).
 pub fn guarded<T: Send + 'static>(first_check_ms: u64, hard_limit_ms: u64, f: impl FnOnce() -> T + Send + 'static) -> Guarded<T> {
@@ -231,6 +266,20 @@ pub fn guarded<T: Send + 'static>(first_check_ms: u64, hard_limit_ms: u64, f: im
         .expect("spawn scenario thread");
     let t0 = Instant::now();
     let mut wait = first_check_ms;
+    // livelock monitor: progress events are every coder symbol, window move, LZMA2 chunk, decoder
+    // hand-over (hook counters), every call into the harness's sources and sinks, failpoint hits and
+    // the worker census. A scenario that burns CPU for SPIN_QUIET_MS without a single one of them
+    // is spinning (a legitimate decode or encode ticks thousands of times per millisecond).
+    let work_progress = || -> u64 {
+        let c: u64 = verif::counters().iter().fold(0u64, |a, b| a.wrapping_add(*b));
+        let fp: u64 = verif::fp_stats().iter().map(|(h, _)| *h).sum();
+        let (live, _, total) = verif::census();
+        c.wrapping_add(crate::fio::IO_TICKS.load(std::sync::atomic::Ordering::Relaxed)).wrapping_add(fp).wrapping_add(live).wrapping_add(total.wrapping_mul(7))
+    };
+    let spin_quiet_ms: u128 = SPIN_QUIET_MS.load(std::sync::atomic::Ordering::Relaxed) as u128;
+    let mut last_progress = work_progress();
+    let mut last_change = Instant::now();
+    let mut last_cpu = process_cpu_ticks();
     loop {
         match rx.recv_timeout(Duration::from_millis(wait)) {
             Ok(Ok(v)) => {
@@ -258,6 +307,26 @@ pub fn guarded<T: Send + 'static>(first_check_ms: u64, hard_limit_ms: u64, f: im
                             return Guarded::Done(v);
                         }
                         return Guarded::Stuck(format!("{why}; {why2}"));
+                    }
+                }
+                let now = work_progress();
+                if now != last_progress {
+                    last_progress = now;
+                    last_change = Instant::now();
+                    last_cpu = process_cpu_ticks();
+                } else if last_change.elapsed().as_millis() > spin_quiet_ms {
+                    // no event for a long time: is the process computing at all? (at least half a core)
+                    let cpu = process_cpu_ticks();
+                    let burned_ms = cpu.saturating_sub(last_cpu) * 10;
+                    if burned_ms as u128 > last_change.elapsed().as_millis() / 2 {
+                        if let Ok(Ok(v)) = rx.try_recv() {
+                            return Guarded::Done(v);
+                        }
+                        return Guarded::Stuck(format!(
+                            "spinning: no progress event (coder symbol, decoder hand-over, source/sink call, worker start/stop) for {} ms while the process burned {} ms of CPU",
+                            last_change.elapsed().as_millis(),
+                            burned_ms
+                        ));
                     }
                 }
                 if t0.elapsed().as_millis() as u64 > hard_limit_ms {
